@@ -2918,7 +2918,7 @@ def regex_words(ex, st, re_, oracle):
     return pattern_words(ex, st, pat, oracle)
 
 
-def pattern_words(ex, st, pat, oracle):
+def pattern_ast(ex, st, pat, oracle):
     P_ = PatternParser(ex, st, pat, oracle)
     start = end = False
     if P_.at('^'):
@@ -2930,7 +2930,30 @@ def pattern_words(ex, st, pat, oracle):
         end = True
     if P_.i != len(pat):
         raise Inconclusive('pattern text not fully parsed at position %d' % P_.i)
+    return ast, start, end
+
+
+def pattern_words(ex, st, pat, oracle):
+    ast, start, end = pattern_ast(ex, st, pat, oracle)
     return RS.ordered_words(ast), start, end
+
+
+def quantifiers(ast):
+    """every {n} / {m,n} node of a pattern AST as (lo, hi, length of the shortest word of the quantified unit)"""
+    out = []
+
+    def go(n):
+        k = n[0]
+        if k in ('alt', 'cat'):
+            for c in n[1]:
+                go(c)
+        elif k == 'opt':
+            go(n[1])
+        elif k == 'rep':
+            out.append((n[2], n[3], min(len(w) for w in RS.ordered_words(n[1]))))
+            go(n[1])
+    go(ast)
+    return out
 
 
 def byte_offsets(text):
@@ -4227,5 +4250,141 @@ def q16u(ctx, sk_a, sk_b):
         return z3.Not(z3.And(*parts)) if parts else z3.BoolVal(False)
     ob.verdict = decide(ob.qid, assume + ob.defs, z3.Or(*bads) if bads else z3.BoolVal(False), letters, all_sat=True,
                         max_models=ctx.cap('Q16u') + 100, second=ctx.second, workdir=ctx.workdir,
+                        second_timeout_s=getattr(ctx, 'second_timeout', 60), blocker=blocker)
+    return ob
+
+
+# =========================================================================== Q01s  soundness and validity under every combination of settings
+SETTING_FIELDS = {'digits': 'is_digit_converted', 'words': 'is_word_converted', 'spaces': 'is_space_converted', 'non_digits': 'is_non_digit_converted',
+                  'non_words': 'is_non_word_converted', 'non_spaces': 'is_non_space_converted', 'repetitions': 'is_repetition_converted',
+                  'ignore_case': 'is_case_insensitive_matching', 'capture': 'is_capturing_group_enabled', 'escape': 'is_non_ascii_char_escaped',
+                  'verbose': 'is_verbose_mode_enabled', 'no_start_anchor': 'is_start_anchor_disabled', 'no_end_anchor': 'is_end_anchor_disabled'}
+
+
+@guarded
+def q01s(ctx, lens=(2, 1), settings=(), thresholds=(1, 1)):
+    """Q01s: for a combination of settings, build() does not panic, prints a pattern of the syntax the regex crate accepts with exactly the requested flags and anchors, and the pattern finds every test case in full"""
+    settings = tuple(sorted(settings))
+    ob = Obligation('Q01s[%s][%s]%s' % (','.join(map(str, lens)), ','.join(settings) or 'default',
+                                        '' if tuple(thresholds) == (1, 1) else '[min_repetitions=%d,min_substring_length=%d]' % tuple(thresholds)),
+                    q01s.__doc__ + '; {n} / {m,n} quantifiers appear only with conversion of repetitions and then respect both thresholds')
+    ci = 'ignore_case' in settings
+    ob.domain = ('%d test cases of %s characters from 0-9 a-z%s, blank, underscore (every equality pattern); settings: %s' % (
+        len(lens), '/'.join(map(str, lens)), ' A-Z' if ci else '', ', '.join(settings) or 'default'))
+    ob.bound = 'exactly these lengths'
+    for k in settings:
+        if k not in SETTING_FIELDS:
+            raise Inconclusive('setting %s is not supported by Q01s' % k)
+    cases = [[z3.BitVec('s%d_%d' % (i, j), 32) for j in range(n)] for i, n in enumerate(lens)]
+    allv = [v for c in cases for v in c]
+    assume = [z3.And(z3.UGE(v, BV(0x20, 32)), z3.ULE(v, BV(0x7A, 32))) for v in allv]
+    opts = lambda v: [v == BV(0x20, 32), v == BV(0x5F, 32), z3.And(z3.UGE(v, BV(0x30, 32)), z3.ULE(v, BV(0x39, 32))),
+                      z3.And(z3.UGE(v, BV(0x61, 32)), z3.ULE(v, BV(0x7A, 32)))] + ([z3.And(z3.UGE(v, BV(0x41, 32)), z3.ULE(v, BV(0x5A, 32)))] if ci else [])
+    assume += [z3.Or(*opts(v)) for v in allv]
+    fields = ctx.mir.structs.get('RegExpConfig')
+    off = {k: (BV(1, 32) if k.startswith('minimum_') else z3.BoolVal(False)) for k in fields}
+    for k in settings:
+        off[SETTING_FIELDS[k]] = z3.BoolVal(True)
+    off['minimum_repetitions'], off['minimum_substring_length'] = BV(thresholds[0], 32), BV(thresholds[1], 32)
+    cfgv = config_value(ctx, off)
+    orbit = dict(ctx.oracle['orbit'])
+    fold_defs, fold_memo = [], {}
+
+    def fold(t):
+        c_ = concrete(t)
+        if c_ is not None:
+            return BV(orbit.get(c_, c_), 32)
+        k = t.get_id()
+        if k in fold_memo:
+            return fold_memo[k][0]
+        f_ = z3.BitVec('fold!%d' % len(fold_memo), 32)
+        fold_memo[k] = (f_, t)
+        fold_defs.append(f_ == table_tree(t, [(a_, BV(r_, 32)) for a_, r_ in ctx.oracle['orbit'] if 0x20 <= a_ <= 0x7A], t))    # t is confined to U+0020..U+007A
+        return f_
+    ex = ctx.new_exec([(P(r'^<str as UnicodeSegmentation>::graphemes$'), m_graphemes_per_letter), (P(r'impl str>::to_lowercase$'), m_to_lowercase_ascii)] +
+                      make_regex_search_models(ctx) + make_gc_models(ctx) + make_regex_models(ctx, lambda t: orbit_rep(ctx, t)))
+    st = State(pc=list(assume))
+    cfg = st.ref(cfgv)
+    v = st.ref(ListV([SymStr(c) for c in cases]))
+    f_from = ctx.mir.one_fn(r'^regexp::<impl at [^>]*>::from$')
+    f_fmt = display_fmt_name(ctx, 'RegExp')
+    t0 = time.time()
+    bads = []
+    npaths = 0
+    verbose = 'verbose' in settings
+    head = [ord(ch) for ch in ('(?ix)' if ci and verbose else '(?i)' if ci else '(?x)' if verbose else '')]
+    for o in ex.run_fn(st, f_from, [v, cfg]):
+        if o.panic:
+            bads.append(z3.And(*o.st.pc))
+            ob.classes_seen['panic'] = ob.classes_seen.get('panic', 0) + 1
+            continue
+        buf = o.st.ref(SymStr(()))
+        for o2 in ex.run_fn(o.st, f_fmt, [o.st.ref(o.val), buf]):
+            npaths += 1
+            if o2.panic:
+                bads.append(z3.And(*o2.st.pc))
+                ob.classes_seen['panic'] = ob.classes_seen.get('panic', 0) + 1
+                continue
+            items = list(o2.st.load(buf).items)
+            if cps(items[:len(head)]) != head or (not head and cps(items[:2]) == [ord('('), ord('?')] and cps(items[2:3]) != [ord(':')]):
+                bads.append(z3.And(*o2.st.pc))
+                ob.classes_seen['wrong-flag-group'] = ob.classes_seen.get('wrong-flag-group', 0) + 1
+                continue
+            body = items[len(head):]
+            if verbose:
+                body = strip_verbose_whitespace(body)
+            try:
+                ast_, sa, ea = pattern_ast(ex, o2.st, body, ctx.oracle)
+                words = RS.ordered_words(ast_)
+            except InfiniteLanguage:
+                bads.append(z3.And(*o2.st.pc))
+                continue
+            ob.classes_seen['parsed'] = ob.classes_seen.get('parsed', 0) + 1
+            qs = quantifiers(ast_)
+            if qs:
+                ob.classes_seen['quantified'] = ob.classes_seen.get('quantified', 0) + 1
+            if ('repetitions' not in settings and qs) or any(not (hi > thresholds[0] and ul >= thresholds[1]) for lo, hi, ul in qs):
+                bads.append(z3.And(*o2.st.pc))      # a quantifier without the option, or one below a threshold
+                ob.classes_seen['bad-quantifier'] = ob.classes_seen.get('bad-quantifier', 0) + 1
+                continue
+            if sa != ('no_start_anchor' not in settings) or ea != ('no_end_anchor' not in settings):
+                bads.append(z3.And(*o2.st.pc))
+                continue
+            txt = ''.join(chr(concrete(x)) if concrete(x) is not None else 'x' for x in body)
+
+            def unescaped(i):
+                k = 0
+                while i - 1 - k >= 0 and txt[i - 1 - k] == '\\':
+                    k += 1
+                return k % 2 == 0
+            opens = [i for i in range(len(txt)) if txt[i] == '(' and unescaped(i)]
+            noncap = [i for i in opens if txt[i:i + 3] == '(?:']
+            if ('capture' in settings and noncap) or ('capture' not in settings and len(noncap) != len(opens)):
+                bads.append(z3.And(*o2.st.pc))
+                continue
+            fd = fold if ci else None
+            full = []
+            for c in cases:
+                n = len(c)
+                alts, earlier = [], []
+                for w in words:
+                    if len(w) > n or (ea and len(w) != n):
+                        continue
+                    g = RS.word_match(w, c, 0, ctx.oracle, fd)
+                    if len(w) == n:
+                        alts.append(z3.And(g, *[z3.Not(h) for h in earlier]))
+                    else:
+                        earlier.append(g)
+                full.append(z3.Or(*alts) if alts else z3.BoolVal(False))
+            bads.append(z3.And(*o2.st.pc, z3.Not(z3.And(*full))))
+    ctx.finish(ob, ex, t0)
+    ob.paths = npaths
+
+    def blocker(m):
+        vals = [m.eval(c, model_completion=True).as_long() for c in allv]
+        return z3.Or(*[c != BV(x, 32) for c, x in zip(allv, vals)])
+    ob.verdict = decide(ob.qid, assume + ob.defs + fold_defs, z3.Or(*bads) if bads else z3.BoolVal(False), allv, all_sat=True,
+                        max_models=ctx.cap('Q01s'), workdir=ctx.workdir,
+                        second=tuple(x for x in ctx.second if not (getattr(ctx, 'tier', 'quick') == 'quick' and x.startswith('cvc5'))),
                         second_timeout_s=getattr(ctx, 'second_timeout', 60), blocker=blocker)
     return ob
